@@ -135,20 +135,16 @@ def judge(ctx, cases):
 def run(ctx):
     rng = random.Random(ctx.seed)
     try:
-        m = vlib.tlc("MC_Bisect", workers=4, timeout=900, deque=False)
-        ctx.add_tlc(m, e1=True)
-        m = vlib.tlc("MC_ItpP", workers=4, timeout=900, deque=False, xmx="6g")
-        ctx.add_tlc(m, e1=True)
-        m = vlib.tlc("MC_Brent", workers=4, timeout=900, deque=False)
-        ctx.add_tlc(m, e1=True)
+        vlib.e1(ctx, "MC_Bisect", "Bisect", ["Begin", "Iter", "GiveUp"], workers=4, timeout=900)
+        vlib.e1(ctx, "MC_ItpP", "ItpP", ["Begin", "Step", "Finish"], workers=4, timeout=900, xmx="6g")
+        vlib.e1(ctx, "MC_Brent", "Brent", ["Begin", "First", "Iter", "Exit"], workers=4, timeout=900)
         # any interpolated point: lattice of 16 units on every change, of 24 in the thorough tier
         cfgp = os.path.join(vlib.SPEC, "MC_Brent_any_run.cfg")
         open(cfgp, "w").write(open(os.path.join(vlib.SPEC, "MC_Brent_any.cfg")).read().replace("W = 24", "W = %d" % (16 if ctx.tier == "quick" else 24)))
         try:
-            m = vlib.tlc("MC_Brent", cfg="MC_Brent_any_run.cfg", workers=6, timeout=1500, deque=False, xmx="8g")
+            vlib.e1(ctx, "MC_Brent", "Brent", ["Begin", "First", "Iter", "Exit"], cfg="MC_Brent_any_run.cfg", workers=6, timeout=1500, xmx="8g")
         finally:
             os.remove(cfgp)
-        ctx.add_tlc(m, e1=True)
     except vlib.ToolError:
         raise
     cases = fncommon.gen_tlc(ctx, "Gen_C07", "c07")
